@@ -21,6 +21,7 @@
 EXTENDS Naturals, Sequences, FiniteSets, TLC
 LcKey(k) == CASE k = "Haplotig" -> "haplotig" [] k = "Contaminant" -> "contaminant" [] k = "FalseDuplicate" -> "falseduplicate"
               [] k \in {"HAP1", "Hap1", "hap1"} -> "hap1" [] k \in {"hap2", "HAP2", "Hap2"} -> "hap2" [] k \in {"Hap3", "HAP3", "hap3"} -> "hap3"
+              [] k \in {"MAT", "Mat", "mat"} -> "mat" [] k \in {"pat", "Pat", "PAT"} -> "pat"
               [] k = "Primary" -> "primary" [] OTHER -> k
 FileMode(A) == IF \E q \in 1..Len(A) : A[q].key = "Primary" THEN "primary" ELSE IF \E q \in 1..Len(A) : A[q].key = "" THEN "single" ELSE "multi"
 Base(root, ver) == root \o "." \o ver
